@@ -200,6 +200,15 @@ def materialise(v):
     return None
 
 
+TAGS = ("npfunc", "function", "builtin", "import", "closure", "method", "module", "class", "boundmethod", "pyfunc", "regex",
+        "ntclass", "type", "typeobj")
+
+
+def is_tagged(v):
+    """internal representation of a function / module / type value (a tuple whose first item is a tag)"""
+    return isinstance(v, tuple) and len(v) >= 2 and isinstance(v[0], str) and v[0] in TAGS and not isinstance(v, NTuple)
+
+
 def dict_key(v):
     """hashable python key of a constant value (numbers as int / Fraction, tuples recursively)"""
     if isinstance(v, (str, bool)) or v is None:
@@ -239,6 +248,7 @@ class RaiseReached(AnalysisError):
         self.node = node
 
 
+_CONST_CACHE: dict = {}
 HAZARDS = []       # (kind, function name, line, text) recorded by every Evaluator of the run
 
 
@@ -687,7 +697,7 @@ class Evaluator:
                     self.hazards.append(rec)
                     HAZARDS.append(rec)
                 if any(not isinstance(i, int) or isinstance(i, FancyIndex) for i in idx[:-1]) or idx[-1] is None \
-                        or isinstance(idx[-1], FancyIndex):
+                        or isinstance(idx[-1], FancyIndex) or (isinstance(idx[-1], slice) and any(isinstance(x_, list) for x_ in base.data)):
                     self.store_general(base, idx, val, target)
                     return
                 d = base.data
@@ -1107,7 +1117,7 @@ class Evaluator:
         # a constant array against a constant: element-wise truth values (for numpy.all / numpy.any)
         for x_, y_, swap in ((a, b, False), (b, a, True)):
             if isinstance(x_, Arr) and isinstance(y_, (Rat, int, float)) and not isinstance(y_, bool) and x_.shape != () \
-                    and all(isinstance(e_, Rat) and e_.is_const() for e_ in x_.flat()) and scalar(y_).is_const():
+                    and all(isinstance(e_, Rat) for e_ in x_.flat()):
                 def recb(d):
                     if isinstance(d, list):
                         return [recb(e_) for e_ in d]
@@ -1312,6 +1322,29 @@ class Evaluator:
             return base[k]
         return self.subscript(base, self.index_of(node.slice, env), node)
 
+    def resolve_constant(self, dotted):
+        """a module-level constant of another module of the repository (`atomlib.CONSTANT_SLOT`): evaluated in that module"""
+        parts = dotted.split(".")
+        if len(parts) < 2 or parts[0] != "xfab":
+            return None
+        from . import core as _core
+        rel = "/".join(parts[:-1]) + ".py"
+        try:
+            other = _core.module(rel)
+        except AnalysisError:
+            return None
+        name = parts[-1]
+        if name not in other.assigns or name in other.functions or name in other.classes:
+            return None
+        key = (rel, name)
+        if key not in _CONST_CACHE:
+            try:
+                _CONST_CACHE[key] = type(self)(other).module_constant(name)
+            except AnalysisError:
+                _CONST_CACHE[key] = None
+        v = _CONST_CACHE[key]
+        return v.copy() if isinstance(v, Arr) else v
+
     def hand_down(self, node, value):
         self.__dict__.setdefault("_pre", {})[id(node)] = value
 
@@ -1329,6 +1362,9 @@ class Evaluator:
             dotted = base[1] + "." + node.attr
             if dotted in self.import_values:
                 return self.import_values[dotted]
+            v_ = self.resolve_constant(dotted)
+            if v_ is not None:
+                return v_
             return ("import", dotted)
         if isinstance(base, NTuple):
             if node.attr in base.nt_fields:
@@ -1551,13 +1587,18 @@ class Evaluator:
                 raise AnalysisError("E3: range over a non-constant (line %d)" % node.lineno)
             return [Rat.const(i) for i in range(*ints)]
         if name == "isinstance" and len(args) == 2:
-            types = args[1] if isinstance(args[1], tuple) else (args[1],)
-            tn = [t[1] for t in types if isinstance(t, tuple) and len(t) == 2 and t[0] in ("builtin", "type")]
+            is_type = lambda t_: isinstance(t_, tuple) and len(t_) == 2 and t_[0] in ("builtin", "type") and isinstance(t_[1], str)
+            types = (args[1],) if is_type(args[1]) else (args[1] if isinstance(args[1], tuple) else (args[1],))
+            tn = [t[1] for t in types if is_type(t)]
             if len(tn) != len(types):
                 raise AnalysisError("E3: isinstance against a non-builtin type (line %d)" % node.lineno)
             v = args[0]
             kind = "bool" if isinstance(v, bool) else "str" if isinstance(v, str) else "NoneType" if v is None else \
-                "number" if isinstance(v, Rat) and v.is_const() else None
+                "number" if isinstance(v, Rat) and v.is_const() else \
+                "function" if is_tagged(v) else "tuple" if isinstance(v, tuple) else "list" if isinstance(v, list) else \
+                "dict" if isinstance(v, dict) else "ndarray" if isinstance(v, Arr) else None
+            if kind in ("function", "tuple", "list", "dict", "ndarray"):
+                return kind in tn
             if kind is None:
                 raise AnalysisError("E3: isinstance of a symbolic value (line %d)" % node.lineno)
             if kind == "number":
@@ -1641,6 +1682,9 @@ class Evaluator:
             raise AnalysisError("E3: next() of an exhausted sequence (line %d)" % node.lineno)
         if name in ("zip", "enumerate", "reversed", "sorted", "all", "any"):
             seqs = []
+            if name == "enumerate" and len(args) == 2:
+                kwargs = dict(kwargs, start=args[1])
+                args = args[:1]
             for v in args:
                 if isinstance(v, Arr):
                     v = [Arr(x) if isinstance(x, list) else x for x in v.data]
@@ -1695,6 +1739,8 @@ class Evaluator:
         if attr == "transpose" and args:
             axes = args[0] if len(args) == 1 and isinstance(args[0], (list, tuple)) else args
             return self.np_transpose_axes(base, [const_int(a_) for a_ in axes], node)
+        if attr == "reshape" and args and not isinstance(base, (dict, str)):
+            return self.np_call("reshape", [base] + [tuple(args) if not (len(args) == 1 and isinstance(args[0], (list, tuple))) else args[0]], {}, node)
         if attr in ("all", "any") and isinstance(base, (list, bool)) and not args:
             return self.np_call(attr, [base], kwargs, node)
         if attr == "clip" and isinstance(base, Arr) and len(args) == 2:
@@ -2211,6 +2257,34 @@ class Evaluator:
                                 raise AnalysisError("E3: %s of incompatible shapes (line %d)" % (name, node.lineno))
                             return [cat([d[i] for d in ds], ax - 1) for i in range(n0.pop())]
                         return Arr(cat([p.copy().data for p in parts], axis))
+        if name in ("empty_like", "zeros_like", "ones_like") and len(args) == 1:
+            A = args[0] if isinstance(args[0], Arr) else materialise(args[0])
+            if A is not None:
+                return self._np_call({"empty_like": "empty", "zeros_like": "zeros", "ones_like": "ones"}[name],
+                                     [tuple(Rat.const(d_) for d_ in A.shape)], {}, node)
+        if name == "reshape" and len(args) >= 2:
+            A = args[0] if isinstance(args[0], Arr) else materialise(args[0])
+            shp = args[1] if len(args) == 2 and isinstance(args[1], (list, tuple)) else args[1:]
+            dims = [const_int(x_) for x_ in shp]
+            if A is not None and all(d_ is not None for d_ in dims):
+                flat_ = A.flat()
+                if dims.count(-1) == 1:
+                    known = 1
+                    for d_ in dims:
+                        if d_ != -1:
+                            known *= d_
+                    if known and len(flat_) % known == 0:
+                        dims[dims.index(-1)] = len(flat_) // known
+                tot_ = 1
+                for d_ in dims:
+                    tot_ *= d_
+                if tot_ == len(flat_) and all(d_ >= 0 for d_ in dims):
+                    def build_(vals, ds):
+                        if len(ds) == 1:
+                            return list(vals)
+                        step = len(vals) // ds[0] if ds[0] else 0
+                        return [build_(vals[i_ * step:(i_ + 1) * step], ds[1:]) for i_ in range(ds[0])]
+                    return Arr(build_(flat_, dims))
         if name == "arange" and len(args) == 1 and not kwargs and const_int(args[0]) is not None:
             return Arr([Rat.const(i) for i in range(const_int(args[0]))])
         if name == "empty" and len(args) >= 1:
